@@ -337,3 +337,33 @@ class AsyncioTransport:
         if nondet_bool():
             raise OSError
         return None
+
+
+def ssl_method(*args):
+    """Any bound method of an SSLObject handed to _retry_ssl_method (read / write / do_handshake / unwrap).
+    ghost.tls_cause records why it ended: 0 returned, 1 peer's close_notify (SSLZeroReturnError), 2 transport ended without
+    close_notify (SSLEOFError), 3 other SSLError, 4 OSError."""
+    k = nondet_int()
+    if k == 0:
+        raise ssl.SSLWantReadError
+    if k == 1:
+        raise ssl.SSLWantWriteError
+    if k == 2:
+        ghost.tls_cause = 1
+        raise ssl.SSLZeroReturnError
+    if k == 3:
+        ghost.tls_cause = 2
+        raise ssl.SSLEOFError
+    if k == 4:
+        ghost.tls_cause = 3
+        raise ssl.SSLCertVerificationError
+    if k == 5:
+        ghost.tls_cause = 4
+        raise_any(OSError, ssl.SSLError)
+    ghost.tls_cause = 0
+    return nondet_obj()
+
+
+def is_ssl_eof_error(exc):
+    """_utils.is_ssl_eof_error: SSLEOFError (the string test for Python 3.10's mis-translated errors is not modelled)."""
+    return isinstance(exc, ssl.SSLEOFError)
